@@ -39,6 +39,9 @@ CONFIGS = {
                           "atoms": [("P", "G", (1.0, 2.0, 3.0), 1.0), ("P", "G", (21.0, 2.0, 3.0), 1.0)]},
     "two-models-descending": {"layout": ["M0", 0, "E", "M1", 1, "E"], "concrete_models": [2, 1],
                               "atoms": [("P", "G", (1.0, 2.0, 3.0), 1.0), ("P", "G", (21.0, 2.0, 3.0), 1.0)]},
+    # residue names that do not end in A/C/G/U/T/N: the one-letter name comes from the atom-based detection (used by C14's frame condition)
+    "hetero-names": {"layout": [0, 1, 2], "atoms": [("O", "HOH", (1.0, 2.0, 3.0), 1.0), ("N9", "P5P", (9.0, 2.0, 3.0), 1.0), ("C2", "P5P", (9.0, 9.0, 3.0), 1.0)],
+                     "same_as": {2: 1}},
     "no-model-records": {"layout": [0, 1], "atoms": [("P", "U", (1.0, 2.0, 3.0), 1.0), ("OP1", "U", (3.0, 2.0, 3.0), 1.0)]},
 }
 
@@ -234,7 +237,8 @@ def job_pdb(spec):
         v, m, _ = eng.prove(path, z3.Or(neg))
         res["verdicts"].append({"ob": "a residue's chain / number / insertion code / name / model differs from what was written", "v": v,
                                 "key": "parser.read_3d_structure:fields-pdb", "w": wit(m)})
-    res.update(queries=eng.nq, solver_s=round(eng.tq, 2), unknown=eng.unknown, wall_s=round(time.time() - t0, 2))
+    res.update(queries=eng.nq, solver_s=round(eng.tq, 2), unknown=eng.unknown, wall_s=round(time.time() - t0, 2),
+               frame_paths=getattr(eng, "frame_paths", 0), frame_diffs=getattr(eng, "frame_diffs", []))
     return res
 
 
@@ -406,7 +410,8 @@ def job_cif(spec):
         v, m, _ = eng.prove(path, z3.Or(neg))
         res["verdicts"].append({"ob": "a residue's chain / number / insertion code or an atom's occupancy differs from the table ('?' and '.' are null markers)",
                                 "v": v, "key": "parser.read_3d_structure:fields-cif", "w": wit(m)})
-    res.update(queries=eng.nq, solver_s=round(eng.tq, 2), unknown=eng.unknown, wall_s=round(time.time() - t0, 2))
+    res.update(queries=eng.nq, solver_s=round(eng.tq, 2), unknown=eng.unknown, wall_s=round(time.time() - t0, 2),
+               frame_paths=getattr(eng, "frame_paths", 0), frame_diffs=getattr(eng, "frame_diffs", []))
     return res
 
 
